@@ -30,8 +30,8 @@ ASSUMPTIONS = [
     "XLA CPU float64 elementary functions are accurate to a few ulp (covered by the 64x error-bound tolerance)",
 ]
 
-CFG_Q = G.QUICK.with_(p_cond=0.16, p_b2n=0.06, max_inter=6, eq_plant=0.25)
-CFG_T = G.THOROUGH.with_(p_cond=0.16, p_b2n=0.06, max_inter=10, max_states=6, eq_plant=0.25)
+CFG_Q = G.QUICK.with_(wide_plant=0.4, p_cond=0.16, p_b2n=0.06, max_inter=6, eq_plant=0.25)
+CFG_T = G.THOROUGH.with_(wide_plant=0.4, p_cond=0.16, p_b2n=0.06, max_inter=10, max_states=6, eq_plant=0.25)
 
 
 def strategy(tier):
